@@ -103,12 +103,12 @@ func TestC14(t *testing.T) {
 	cfg.DryRunPct = 30
 	cfg.FailingPct = 10
 	cfg.Choices = 1
-	cfg.IKPool = []string{"", "", "", "k1", "k2"}
+	cfg.IKPool = []string{"", "", "", "k1", "k2", "k\xff"}
 	ccfg := enginesim.DefaultConfig()
 	ccfg.DryRunPct = 40
 	ccfg.IKPool = []string{"", "", "", "k1"}
 	ccfg.SameIKIdentical = true
-	ccfg.RefBurstPct = 35
+	ccfg.RefBurstPct = 45
 	runProp(t, c, func(rt *rapid.T) {
 		if rapid.IntRange(0, 11).Draw(rt, "httpFlagFamily") == 0 {
 			c14HTTPFlag(rt, c)
